@@ -7,3 +7,6 @@ import BalmProofs.Props.C01
 #print axioms Balm.AttrTest.exit_none
 #print axioms Balm.AttrTest.exit_some
 #print axioms Balm.AttrTest.muts_good
+#print axioms Balm.Impl.mem_reachSet
+#print axioms Balm.Impl.attractors_sound
+#print axioms Balm.Impl.attractors_complete
